@@ -8,13 +8,13 @@ Proof.
   destruct r as [[x y] z]. unfold dot3, dip_tensor, axial, transp, tr3, mv, sc3, of_Z. intros H. unfold num in *.
   assert (H3: 3 * (x*x) + 3 * (y*y) + 3 * (z*z) = 3) by lra.
   split; [|split; [|split]].
-  - unfold v3, m3, num in *. pairs; ring.
+  - pairs; cbv [num v3 m3 dot3] in *; ring.
   - transitivity (d * (3 * (x*x) + 3 * (y*y) + 3 * (z*z) - 3)); [ring|]. rewrite H3. ring.
-  - unfold v3, m3, num in *. pairs.
+  - pairs; cbv [num v3 m3 dot3] in *.
     + transitivity (d * x * (3 * (x*x) + 3 * (y*y) + 3 * (z*z) - 1)); [ring|]. rewrite H3. ring.
     + transitivity (d * y * (3 * (x*x) + 3 * (y*y) + 3 * (z*z) - 1)); [ring|]. rewrite H3. ring.
     + transitivity (d * z * (3 * (x*x) + 3 * (y*y) + 3 * (z*z) - 1)); [ring|]. rewrite H3. ring.
-  - intros [[u1 u2] u3] U. unfold v3, m3, num in *. pairs.
+  - intros [[u1 u2] u3] U. pairs; cbv [num v3 m3 dot3] in *.
     + transitivity (3 * d * x * (u1*x + u2*y + u3*z) - d * u1); [ring|]. rewrite U. ring.
     + transitivity (3 * d * y * (u1*x + u2*y + u3*z) - d * u2); [ring|]. rewrite U. ring.
     + transitivity (3 * d * z * (u1*x + u2*y + u3*z) - d * u3); [ring|]. rewrite U. ring.
@@ -28,7 +28,7 @@ Proof.
   - unfold dip_tensor_rot, dip_tensor, d', c, of_Z. f_equal. unfold num in *. field.
   - assert (E: dip_tensor_rot d r a = dip_tensor d' a) by (unfold dip_tensor_rot, dip_tensor, d', c, of_Z; f_equal; unfold num in *; field).
     rewrite E. destruct (dip_tensor_l d' a H) as (_ & _ & AX & _). rewrite AX.
-    destruct a as [[a1 a2] a3]. destruct r as [[x y] z]. unfold d', c, dot3, sc3, dip_tensor, axial, mv, of_Z in *. unfold num in *.
+    destruct a as [[a1 a2] a3]. destruct r as [[x y] z]. unfold d', c, sc3, dip_tensor, axial, mv, of_Z in *. cbv [num v3 m3 dot3] in *.
     set (q := x * a1 + y * a2 + z * a3).
     transitivity (d * (3 * (q * q) - 1) * (a1*a1 + a2*a2 + a3*a3)); [unfold q; field|].
     transitivity (d * (3 * (q * q) - (a1*a1 + a2*a2 + a3*a3))); [rewrite H; ring|unfold q; ring].
